@@ -443,7 +443,8 @@ def isolateSubgraph (g : Graph) (roots : Set) (fresh : List Nat) : Option (Bool 
       { g with nodes := Map.modify g.nodes id (fun n => { n with space := nextSpace })
                objects := Map.modify g.objects id (fun o => { o with links := remapLinks idMap o.links }) }) s.g
   if idMap.isEmpty then some (false, g, roots, s.fresh) else
-  -- remap the wide links to duplicated roots (parents of the original root, wide links only)
+  -- remap the wide links to duplicated roots: `for (parent_id, len) in &self.nodes[root].parents`,
+  -- wide parents and wide links only (as of /repo fix 653271a)
   let g := roots.foldl (fun (g : Graph) root =>
       match idMap.find? root with
       | none => g
@@ -533,6 +534,15 @@ def tryIsolating (g : Graph) (overflows : List Overflow) (fresh : List Nat) :
 
 /-! ## pack_objects -/
 
+/-- `Graph::remove_orphans`: drop every object that `find_subgraph_hb(root)` does not reach. -/
+def removeOrphans (g : Graph) : Graph :=
+  let visited := findSubgraph g (depthFuel g) g.root []
+  if visited.length ≠ g.nodes.length then
+    { g with nodes := g.nodes.filter (fun kv => visited.contains kv.1)
+             objects := g.objects.filter (fun kv => visited.contains kv.1)
+             parentsInvalid := true }
+  else g
+
 /-- `Graph::basic_sort`. -/
 def basicSort (g : Graph) : Option (Bool × Graph) := do
   let g ← sortKahn g
@@ -549,7 +559,7 @@ def packLoop : Nat → Graph → List Nat → Option (Bool × Graph × List Nat)
     if overflows.isEmpty then some (true, g, fresh) else
     let (changed, g, fresh) ← tryIsolating g overflows fresh
     if !changed then some (false, g, fresh) else
-    let g ← sortShortest g
+    let g ← sortShortest (removeOrphans g)
     packLoop fuel g fresh
 
 /-- `Graph::pack_objects` for graphs without splittable / promotable (typed GPOS/GSUB lookup)
@@ -558,7 +568,7 @@ def packObjects (g : Graph) (fresh : List Nat) : Option (Bool × Graph × List N
   let (ok, g) ← basicSort g
   if ok then some (true, g, fresh) else
   let (_, g, fresh) ← assignSpaces g fresh
-  let g ← sortShortest g
+  let g ← sortShortest (removeOrphans g)
   let ov ← hasOverflows g
   if !ov then some (true, g, fresh) else
   packLoop (g.objects.length + 2) g fresh
